@@ -4,6 +4,8 @@
 \* + rotation of the client CA in place (mutual TLS; a connection presents no certificate or one of any generation of the CA):
 \*   duplex 2 connections x 2 rotations x 2 reloads x <= 1 use, real server 3 connections x 1 rotation x 2 reloads x <= 1 use
 \* + failed reloads (real server, with and without mutual TLS): 2 connections x 2 failed reloads x 2 reloads x <= 1 use
+\* + unusable client-CA bundle (mutual TLS; duplex and real server; bounds F*): connections presenting no / a foreign / the trusted
+\*   certificate x failed reloads caused by a bundle that yields no CA x reloads (duplex: x <= FUse uses, optionally a botched start-up)
 \* + client side: 4 connections x 2 replacements of the roots file in place
 SPECIFICATION Spec
 CONSTANTS
@@ -41,6 +43,6 @@ CONSTANTS
   RResRotate = 1
   RResUse = 1
   RResMtls = {FALSE, TRUE}
-  Extra = {"rot", "rrot", "client", "rfail", "res", "rres"}
+  Extra = {"rot", "rrot", "client", "rfail", "res", "rres", "fca", "rfca"}
 INVARIANTS TypeOK Undisturbed Fresh ConfigKept CAFollows JudgedAsConfigured TicketsOfThisConfiguration Authenticated ClientFollowsRoots Emit
 CHECK_DEADLOCK FALSE
